@@ -82,6 +82,7 @@ func (e *Enc) run() {
 		e.fail("function %s has no body", f)
 	}
 	e.analyseCFG()
+	e.computeSites()
 	e.collectDebug()
 	e.init = &State{h: map[string]Term{}}
 	for _, n := range e.heapOrder {
@@ -112,8 +113,10 @@ func (e *Enc) run() {
 			if _, isPhi := in.(*ssa.Phi); isPhi {
 				continue // handled in enterBlock
 			}
+			e.curInstr = in
 			e.exec(in)
 		}
+		e.curInstr = nil
 		e.exitSt[b] = e.cur
 	}
 	e.evalReplayVals()
@@ -302,8 +305,7 @@ func (e *Enc) enterBlock(b *ssa.BasicBlock) {
 	for i, cl := range ls.Invs {
 		g := env.evalBool(cl.Expr)
 		o := e.oblige("inv_entry", fmt.Sprintf("inv_entry:loop%d.%d", li.ord, i), g, token.NoPos, cl.Src)
-		o.Label = cl.Label
-		o.Pos = token.Position{Filename: cl.File, Line: cl.Line}
+		o.setMeta(cl.Label, token.Position{Filename: cl.File, Line: cl.Line})
 	}
 	// 2. havoc what the loop modifies
 	mod := e.loopModset(li)
@@ -418,14 +420,13 @@ func (e *Enc) backEdgeChecks(b *ssa.BasicBlock) {
 		for i, cl := range ls.Invs {
 			g := env.evalBool(cl.Expr)
 			o := e.oblige("inv_preserve", fmt.Sprintf("inv_preserve:loop%d.%d@b%d", li.ord, i, b.Index), g, token.NoPos, cl.Src)
-			o.Label = cl.Label
-			o.Pos = token.Position{Filename: cl.File, Line: cl.Line}
+			o.setMeta(cl.Label, token.Position{Filename: cl.File, Line: cl.Line})
 		}
 		if ls.Decreases != nil && li.variantAtHead != "" {
 			d := env.evalInt(ls.Decreases.Expr)
 			g := tAnd(tLt(d, li.variantAtHead), tLe("0", li.variantAtHead))
 			o := e.oblige("variant", fmt.Sprintf("variant:loop%d@b%d", li.ord, b.Index), g, token.NoPos, ls.Decreases.Src)
-			o.Pos = token.Position{Filename: ls.Decreases.File, Line: ls.Decreases.Line}
+			o.setMeta("", token.Position{Filename: ls.Decreases.File, Line: ls.Decreases.Line})
 		}
 		_ = nAsm
 		e.curReach = saved
@@ -445,4 +446,92 @@ func (e *Enc) describe() string {
 		fmt.Fprintf(&sb, "%s %s\n", o.Name, o.Status)
 	}
 	return sb.String()
+}
+
+// siteKey classifies an instruction for ordinal numbering ("k-th call to Read", "k-th store to readers", ...).
+func (e *Enc) siteKey(in ssa.Instruction) (string, bool) {
+	switch in := in.(type) {
+	case *ssa.Call:
+		if _, ok := in.Call.Value.(*ssa.Builtin); ok && !in.Call.IsInvoke() {
+			if in.Call.Value.Name() == "close" {
+				return "close ", true
+			}
+			if in.Call.Value.Name() == "delete" {
+				return "mapdelete ", true
+			}
+			return "", false
+		}
+		_, short, _, _ := calleeName(in.Common())
+		return "call " + short, true
+	case *ssa.Defer:
+		_, short, _, _ := calleeName(in.Common())
+		return "call " + short, true
+	case *ssa.Go:
+		return "go ", true
+	case *ssa.Store:
+		return "store " + e.storeTargetName(in), true
+	case *ssa.Return:
+		return "return ", true
+	case *ssa.Send:
+		return "send ", true
+	case *ssa.Select:
+		return "select ", true
+	case *ssa.MapUpdate:
+		return "mapupdate ", true
+	case *ssa.Next:
+		return "next ", true
+	case *ssa.UnOp:
+		if in.Op == token.ARROW {
+			return "recv ", true
+		}
+	}
+	return "", false
+}
+
+// computeSites numbers anchor sites in source order (position, then block/instruction index).
+func (e *Enc) computeSites() {
+	type site struct {
+		in       ssa.Instruction
+		pos      token.Pos
+		blk, idx int
+	}
+	groups := map[string][]site{}
+	for _, b := range e.fn.Blocks {
+		for i, in := range b.Instrs {
+			k, ok := e.siteKey(in)
+			if !ok {
+				continue
+			}
+			groups[k] = append(groups[k], site{in, in.Pos(), b.Index, i})
+		}
+	}
+	e.siteOrd = map[ssa.Instruction]int{}
+	for _, g := range groups {
+		sort.SliceStable(g, func(i, j int) bool {
+			pi, pj := g[i].pos, g[j].pos
+			if pi.IsValid() && pj.IsValid() && pi != pj {
+				return pi < pj
+			}
+			if pi.IsValid() != pj.IsValid() {
+				return pi.IsValid()
+			}
+			if g[i].blk != g[j].blk {
+				return g[i].blk < g[j].blk
+			}
+			return g[i].idx < g[j].idx
+		})
+		for n, s := range g {
+			e.siteOrd[s.in] = n
+		}
+	}
+}
+
+func (e *Enc) siteOrdinal(in ssa.Instruction, kind, name string) int {
+	if in == nil {
+		return -1
+	}
+	if n, ok := e.siteOrd[in]; ok {
+		return n
+	}
+	return -1
 }
